@@ -207,6 +207,13 @@ func heapWatchdog(prop string) {
 			limit = uint64(n)
 		}
 	}
+	if os.Getenv("GOMEMLIMIT") == "" {
+		// the engines run with a lazy collector (GC percent 600): without a soft limit the *uncollected* garbage of
+		// a few concurrent self-test variants alone can pass the budget; with it the collector works harder as the
+		// heap nears a third of the budget (measured: thorough C01 peaks at 8 GB instead of 16-24 GB, same wall
+		// time), and only live data can take the heap beyond
+		debug.SetMemoryLimit(int64(limit) / 3 << 30)
+	}
 	var ms runtime.MemStats
 	for {
 		time.Sleep(time.Second)
